@@ -42,6 +42,141 @@ def run(chk):
             rule_unique(chk, fft)
             rule_arity(chk, fft)
         rule_sym(chk, fft)
+    try:
+        rule_resolution_types(chk)
+    except I.Unknown as e:
+        chk.note('C16.types not evaluated: %s' % e)
+
+OVL_TYPES = ["Bool", "Int32", "UInt32", "Float16", "Float32", "Float322", "Float324", "Int323"]
+OVL_ARGS = [("Bool", 0, "Rvalue"), ("Int32", 0, "Lvalue"), ("Int32", 1, "Lvalue"), ("UInt32", 0, "Rvalue"), ("IntLiteral", 0, "Rvalue"), ("FloatLiteral", 0, "Rvalue"),
+            ("Float16", 0, "Lvalue"), ("Float32", 0, "Rvalue"), ("Float32", 0, "Lvalue"), ("Float322", 0, "Lvalue"), ("Float324", 0, "Rvalue"), ("Int323", 0, "Lvalue"), ("Enum", 0, "Rvalue")]
+_W = {}
+
+
+def _ovl_task(i):
+    """all overload sets {f(P), f(Q)} and {f(P), f(Q), f(R)} containing parameter type OVL_TYPES[i] as the first
+    overload, every permutation of the declaration order, every argument: same verdict in every order; an overload whose
+    parameter is exactly the argument's type wins. -> (i, readable, sets, calls, first order failure, first exact failure)"""
+    import itertools
+    import elabmodel as EM
+    if "el" not in _W:
+        _W["el"] = EM.Elab(_W["facts"])
+    el = _W["el"]
+    types = [t for t in OVL_TYPES if t in el.u.names]
+    if i >= len(types):
+        return (i, True, 0, 0, None, None)
+    order_bad = exact_bad = None
+    nsets = ncalls = 0
+    rest = types[i + 1:]
+    sets = [(types[i], q) for q in rest] + [(types[i], q, r) for q, r in itertools.combinations(rest, 2)]
+    for tset in sets:
+        nsets += 1
+        ovl = [(k, [(t, 0, "In")]) for k, t in enumerate(tset)]
+        for an, am, avt in OVL_ARGS:
+            if an not in el.u.names:
+                continue
+            arg = el.ety(an, am, avt)
+            verdicts = {}
+            for perm in itertools.permutations(ovl):
+                ncalls += 1
+                r = el.run_overloads(list(perm), [arg])
+                if r[0] == "unreadable":
+                    return (i, False, nsets, ncalls, r[1], None)
+                verdicts[tuple(k for k, _p in perm)] = r
+            vs = set(verdicts.values())
+            what = "f(%s) called with %s" % ("), f(".join(tset), el.describe(arg))
+            if len(vs) > 1 and order_bad is None:
+                a, b = list(verdicts.items())[0], [x for x in verdicts.items() if x[1] != list(verdicts.values())[0]][0]
+                name = lambda v: ("f(%s)" % tset[v[1]]) if v[0] == "Ok" else ("ambiguous" if v[1] is True else "no match" if v[1] is False else str(v))
+                order_bad = "%s: declared in order %s it resolves to %s, in order %s to %s" % (
+                    what, [tset[k] for k in a[0]], name(a[1]), [tset[k] for k in b[0]], name(b[1]))
+            if an in tset and exact_bad is None:
+                want = ("Ok", tset.index(an))
+                wrong = [v for v in vs if v != want]
+                if wrong:
+                    v = wrong[0]
+                    exact_bad = "%s: the overload taking exactly %s must be chosen, got %s" % (
+                        what, an, ("f(%s)" % tset[v[1]]) if v[0] == "Ok" else ("an ambiguity error" if v[1] is True else "no match" if v[1] is False else str(v)))
+    return (i, True, nsets, ncalls, order_bad, exact_bad)
+
+OVL2_TYPES = ["Int32", "UInt32", "Float32", "Float322"]
+OVL2_TYPES_QUICK = ["Int32", "Float32", "Float322"]
+OVL2_ARGS = [("Int32", 0, "Lvalue"), ("UInt32", 0, "Rvalue"), ("IntLiteral", 0, "Rvalue"), ("Float32", 0, "Lvalue"), ("Float322", 0, "Rvalue"), ("Bool", 0, "Rvalue")]
+
+
+def _ovl2_task(i):
+    """two-parameter overloads: every pair {f(P1,P2), f(Q1,Q2)} whose first signature is number i, both declaration
+    orders, every pair of arguments"""
+    import itertools
+    import elabmodel as EM
+    if "el" not in _W:
+        _W["el"] = EM.Elab(_W["facts"])
+    el = _W["el"]
+    types = [t for t in (OVL2_TYPES if _W.get("tier") == "thorough" else OVL2_TYPES_QUICK) if t in el.u.names]
+    sigs = list(itertools.product(types, repeat=2))
+    if i >= len(sigs):
+        return (i, True, 0, 0, None, None)
+    order_bad = exact_bad = None
+    nsets = ncalls = 0
+    args = [el.ety(*a) for a in OVL2_ARGS if a[0] in el.u.names]
+    for j in range(i + 1, len(sigs)):
+        nsets += 1
+        tset = (sigs[i], sigs[j])
+        ovl = [(k, [(t, 0, "In") for t in sg]) for k, sg in enumerate(tset)]
+        for a in args:
+            for b in args:
+                ncalls += 2
+                r1 = el.run_overloads(ovl, [a, b])
+                r2 = el.run_overloads(ovl[::-1], [a, b])
+                if r1[0] == "unreadable" or r2[0] == "unreadable":
+                    return (i, False, nsets, ncalls, r1[1] if r1[0] == "unreadable" else r2[1], None)
+                what = "f(%s), f(%s) called with (%s, %s)" % (", ".join(tset[0]), ", ".join(tset[1]), el.describe(a), el.describe(b))
+                name = lambda v: ("f(%s)" % ", ".join(tset[v[1]])) if v[0] == "Ok" else ("ambiguous" if v[1] is True else "no match" if v[1] is False else str(v))
+                if r1 != r2 and order_bad is None:
+                    order_bad = "%s: resolves to %s, with the declarations swapped to %s" % (what, name(r1), name(r2))
+                exact = tuple(el.describe(x).replace("const ", "").split()[0] for x in (a, b))
+                if exact in tset and exact_bad is None and (r1 != ("Ok", tset.index(exact)) or r2 != ("Ok", tset.index(exact))):
+                    exact_bad = "%s: the overload taking exactly these types must be chosen, got %s" % (what, name(r1 if r1 != ("Ok", tset.index(exact)) else r2))
+    return (i, True, nsets, ncalls, order_bad, exact_bad)
+
+
+
+def rule_resolution_types(chk):
+    """Overload resolution end to end (write_function -> find_function_type -> find_overload_casts ->
+    ImplicitConversion::find / get_rank, none scripted) on the model type registry: every set of two or three
+    one-parameter overloads over eight parameter types, every declaration order, thirteen argument types; every pair of
+    two-parameter overloads over four parameter types, both orders, 36 argument pairs."""
+    import multiprocessing as mp
+    import os
+    f = chk.facts
+    wf = f.fn("write_function", TY)
+    if not wf:
+        return False
+    _W.clear()
+    _W["facts"] = f
+    _W["tier"] = chk.tier
+    items = list(range(len(OVL_TYPES)))
+    items2 = list(range(len(OVL2_TYPES) ** 2))
+    n = min(16, int(os.environ.get("VERIF_JOBS", "0") or 0) or (os.cpu_count() or 2))
+    if n <= 1:
+        res = [_ovl_task(x) for x in items] + [_ovl2_task(x) for x in items2]
+    else:
+        with mp.get_context("fork").Pool(n) as pool:
+            r1 = pool.map_async(_ovl_task, items, chunksize=1)
+            r2 = pool.map_async(_ovl2_task, items2, chunksize=1)
+            res = r1.get() + r2.get()
+    if not all(r[1] for r in res):
+        chk.note("C16.types: write_function is not readable on the type model (%s)" % [r[4] for r in res if not r[1]][:1])
+        return False
+    sets, calls = sum(r[2] for r in res), sum(r[3] for r in res)
+    ob = [r[4] for r in res if r[4]]
+    eb = [r[5] for r in res if r[5]]
+    chk.ob("C16.types/order-independent", not ob, "%d overload sets, %d resolutions: the chosen overload (or the error) is the same for every declaration order" % (sets, calls)
+           if not ob else ob[0], where(wf), sample={"sets": sets, "resolutions": calls})
+    chk.ob("C16.types/exact-wins", not eb, "whenever an overload takes exactly the argument's type it is the one chosen" if not eb else eb[0], where(wf))
+    chk.floor("C16.floor/type-resolutions", calls, 1000, "resolutions evaluated on the type model", where(wf))
+    return True
+
 
 
 def rule_resolution_eval(chk, fft):
